@@ -12,6 +12,7 @@ Decided:
   L2  spifconf_free_subsystem leaves no pointer to what it released
   L3  no local allocation leaks in conf.c / file.c
   I1  no uninitialised local is used
+  F1  printf-style calls pass an argument for every conversion of their literal format
 """
 from .. import facts, expr as X, confrules as R, own
 from ..report import Check
